@@ -277,6 +277,23 @@ def handle (s : St) (fs : List String) : St × String :=
           ++ "|missing=" ++ " ".intercalate miss ++ "|exc=" ++ " ".intercalate excs
       if sched = "s" ∨ sched = "r" then (s, " // ".intercalate (refs.map showCell)) else (s, "bad-op")
     | _, _, _, _, _, _, _ => (s, "bad-op")
+  | ["incra", passed, ss, g, deps, dependents, prio, univ, sched] =>
+    -- as `incr` with the caller's broker, which holds a SerializedArchiveContext: every run() prunes its sub-graph dict first
+    match decBool passed, decBool ss, nats ',' g, parseGraph deps, parseGraph dependents, parseGraph prio, nats ',' univ with
+    | some _, some ss, some G, some ds, some dts, some ps, some u =>
+      let look (t : Graph) (c : Comp) : List Comp := match t.find? (·.1 == c) with | some kv => kv.2 | none => []
+      let r : Rel := ⟨look ds, look dts⟩
+      let pr (c : Comp) : Nat := (look ps c).headD 0
+      let subs := getSubgraphs r pr G
+      let tasks := generateIncremental subs (some 0) 1
+      let heap : Heap := fun ref => if ref = 0 then ⟨Broker.seeded s.seed, ss⟩ else Cell.fresh
+      let hp := runTasksArchive s.world sortNats r.deps heap (if sched = "r" then tasks.reverse else tasks)
+      let b := (hp 0).broker
+      let inst := u.filterMap (fun c => (b.inst c).map (fun v => s!"{c}:{showVal v}"))
+      let miss := u.filterMap (fun c => (b.missing c).map (fun m => s!"{c}:{showNats ";" m.required}/{showGroups m.atLeastOne}"))
+      let excs := sortStrs (b.excLog.map (fun e => s!"{e.target}:{showExc e.exc}"))
+      (s, "#0[" ++ showNats "," (sortNats G) ++ "]inst=" ++ " ".intercalate inst ++ "|missing=" ++ " ".intercalate miss ++ "|exc=" ++ " ".intercalate excs)
+    | _, _, _, _, _, _, _ => (s, "bad-op")
   | _ => (s, "bad-op")
 
 def main : IO Unit := serveState ({} : St) handle
